@@ -54,7 +54,9 @@ def check_value_line(ctx, table, c, i, m, n, st, mask_modes=False):
         err = abs(Fraction(v) - spec)
         bound = K * u * mag + eta * nterms * (cmax + 1) * (nd + 2)
         if mag > 0 and not known: st["worst_ratio"] = max(st["worst_ratio"], float(err / (u * mag)) / K if err > eta * nterms * (cmax + 1) * (nd + 2) else 0.0)
-        if not mask_modes and w[2] == "0" and mag > 0 and interior(table, xs, cs):
+        if not mask_modes and w[2] == "0" and mag > 0 and not known:
+            # every accepted, non-degenerate point: hypotheses of C01_rounding_envelope_all_partial (margins and knots included)
+            if interior(table, xs, cs): st["interior_only_cases"] = st.get("interior_only_cases", 0) + 1
             # the theorem's bound (C01_rounded_eval_near_spec_partial with C01_envelope_linear: 2*K*eps*S, K = 3+ndim(7 maxorder+3)+2 N)
             eps = u / (1 - u); Kthm = 3 + nd * (7 * maxo + 3) + 2 * nterms
             st["interior_cases"] = st.get("interior_cases", 0) + 1
@@ -129,10 +131,11 @@ def run(ctx):
     ctx.coverage["input_distribution"] = dist
     ctx.coverage["bit_exact_values"] = st["values"] - st["bit_mismatch"]
     ctx.coverage["worst_envelope_ratio"] = st["worst_ratio"]
-    ctx.coverage["interior_value_cases"] = st.get("interior_cases", 0)
-    ctx.coverage["worst_ratio_vs_proved_bound_interior"] = st.get("worst_ratio_proved", 0.0)
+    ctx.coverage["value_cases_under_rounding_theorem"] = st.get("interior_cases", 0)
+    ctx.coverage["of_which_interior"] = st.get("interior_only_cases", 0)
+    ctx.coverage["worst_ratio_vs_proved_bound"] = st.get("worst_ratio_proved", 0.0)
     ctx.coverage["known_finding_cases"] = st["known_cases"]
-    ctx.assumptions += ["floating-point rounding: envelope K*u*S with K=%d*(N_terms+4*ndim*(maxorder+1)) plus an absolute underflow term; proved for value evaluation at interior points without underflow (C01_rounding_envelope_partial: the proved bound 2*K_thm*eps*S is below this envelope; the worst measured error/proved-bound ratio on interior cases is reported), measured elsewhere (margins, underflow)" % K_BASE,
+    ctx.assumptions += ["floating-point rounding: envelope K*u*S with K=%d*(N_terms+4*ndim*(maxorder+1)) plus an absolute underflow term; proved for value evaluation at every accepted non-degenerate point without underflow/overflow (C01_rounding_envelope_all_partial: the proved bound 2*K_thm*eps*S is below this envelope; the worst measured error/proved-bound ratio is reported); the absolute underflow term and derivative evaluations (C02) are measured, not proved" % K_BASE,
                         "compiler: no FMA contraction / x87 (checked by the bit-exact tie)"]
 
 def replay(ctx, path, line_checker=check_value_line):
